@@ -44,6 +44,10 @@ type Config struct {
 	TxIDBase string `json:"txIdBase,omitempty"`
 	// FineSites: statement-level scheduling points enabled in this run (fine-grained mode only).
 	FineSites []string `json:"fineSites,omitempty"`
+	// FineHeld: a task may also be parked at a statement-level point while it holds a mutex of the
+	// rewritten packages (whose Lock calls all park instead of blocking): interleavings *inside*
+	// critical sections, e.g. two ledgers' append sections meeting in package-level state.
+	FineHeld bool `json:"fineHeld,omitempty"`
 }
 
 type GenPlan struct {
@@ -161,10 +165,13 @@ const (
 	tplMetaVar
 	tplAssetVar
 	tplSaveVar
+	tplFallbackWorld     // { @s @world }: a bounded source in front of an unbounded fallback
+	tplFallbackOverdraft // { @s  @s2 allowing unbounded overdraft }
+	tplFeeVars           // three account variables, the non-source one declared first (may alias the source)
 	numTpl
 )
 
-var tplNames = []string{"lit", "var", "meta", "ordered", "max", "odb", "odu", "all", "bal", "world", "split", "setacctmeta", "two", "raw", "orderedvars", "arith", "portionvar", "metavar", "assetvar", "savevar"}
+var tplNames = []string{"lit", "var", "meta", "ordered", "max", "odb", "odu", "all", "bal", "world", "split", "setacctmeta", "two", "raw", "orderedvars", "arith", "portionvar", "metavar", "assetvar", "savevar", "fbworld", "fboverdraft", "feevars"}
 
 var assetNames = []string{"USD", "EUR/2"}
 
@@ -251,6 +258,13 @@ func scriptFor(op *Op) (plain string, vars map[string]string) {
 		// save ... from: the kept amount travels in a variable; @world pays the rest
 		fmt.Fprintf(&sb, "vars {\n\tmonetary $keep\n\taccount $acc\n}\nsave $keep from $acc\nsend [%s 3] (\n\tsource = {\n\t\t$acc\n\t\t@world\n\t}\n\tdestination = @%s\n)\n", a, d)
 		vars["keep"], vars["acc"] = a+" "+amt, s
+	case tplFallbackWorld:
+		fmt.Fprintf(&sb, "send [%s %s] (\n\tsource = {\n\t\t@%s\n\t\t@world\n\t}\n\tdestination = @%s\n)\n", a, amt, s, d)
+	case tplFallbackOverdraft:
+		fmt.Fprintf(&sb, "send [%s %s] (\n\tsource = {\n\t\t@%s\n\t\t@%s allowing unbounded overdraft\n\t}\n\tdestination = @%s\n)\n", a, amt, s, s2, d)
+	case tplFeeVars:
+		sb.WriteString("vars {\n\taccount $fee\n\taccount $from\n\taccount $to\n\tmonetary $m\n}\nsend $m (\n\tsource = $from\n\tdestination = {\n\t\t10% to $fee\n\t\tremaining to $to\n\t}\n)\n")
+		vars["fee"], vars["from"], vars["to"], vars["m"] = s2, s, d, a+" "+amt
 	case tplRaw:
 		sb.WriteString(op.Raw)
 	default:
